@@ -59,6 +59,10 @@ Proof. vm_compute. discriminate. Qed.
 Lemma side_year_prefixes : Forall (fun q => len q = 2) year_prefixes.
 Proof. repeat constructor. Qed.
 
+(* the statement fixes the prefixes: "years are four digits starting 19 or 20" *)
+Lemma side_year_prefixes_19_20 : year_prefixes = [[49; 57]; [50; 48]]%N.
+Proof. reflexivity. Qed.
+
 Lemma side_tlds_nonempty : Forall (fun t => 1 <= len t) tld_list.
 Proof.
   apply Forall_forall. intros x Hx. apply Z.leb_le.
